@@ -1,6 +1,153 @@
-//! C18 — stub (to be implemented).
+//! C18 — GFF3, GTF and BED lines round-trip, including escaping of reserved characters.
+//!
+//! Monitor: generated records/directives (descriptions owned by the harness) are written by the
+//! noodles writers; the emitted text is judged by the harness' own reading of the GFF3 / GTF / BED
+//! specifications (column counts, reserved characters, escapes decode to the described values);
+//! the text is parsed back through the owned APIs (`record_bufs`, `line_bufs`, `read_record`) and
+//! compared field-wise with the description; the lazy line views are compared with the owned
+//! records built from them.
+
+mod bed;
+mod gff;
+mod gtf;
+mod norm;
+mod text;
+
+use std::collections::{BTreeMap, BTreeSet};
+
+use serde_json::json;
+use vcore::{CaseOut, Ctx, Report, Rng, run_cases};
+
+/// Per-case accumulator.
+#[derive(Default)]
+pub struct Mon {
+    pub viols: BTreeMap<String, String>,
+    pub counts: BTreeMap<String, u64>,
+    pub fps: BTreeSet<u64>,
+    pub evals: u64,
+}
+
+impl Mon {
+    pub fn v(&mut self, sig: impl Into<String>, desc: impl Into<String>) {
+        let sig = sig.into();
+        *self.counts.entry(format!("flagged[{sig}]")).or_insert(0) += 1;
+        self.viols.entry(sig).or_insert_with(|| desc.into());
+    }
+    pub fn c(&mut self, k: &str, n: u64) {
+        *self.counts.entry(k.to_string()).or_insert(0) += n;
+    }
+}
+
+#[derive(Clone, Debug)]
+struct Case {
+    /// "gff3" | "gtf" | "bed"
+    format: &'static str,
+    lines: usize,
+    pseed: u64,
+}
+
+fn case_json(c: &Case) -> serde_json::Value {
+    json!({"format": c.format, "lines": c.lines, "pseed": c.pseed})
+}
+
+fn gen_cases(ctx: &Ctx) -> Vec<Case> {
+    let total = ctx.budget("lines", 30_000, 2_000_000) as usize;
+    let per = ctx.budget("lines_per_case", 250, 500) as usize;
+    let n = total.div_ceil(per);
+    let mut rng = Rng::new(ctx.seed, 0xC18, 0);
+    (0..n)
+        .map(|i| Case { format: ["gff3", "gff3", "gtf", "bed"][i % 4], lines: per, pseed: rng.next_u64() })
+        .collect()
+}
+
+fn run_case(c: &Case) -> CaseOut {
+    let mut rng = Rng::new(c.pseed, 0x18, 0);
+    let mut mon = Mon::default();
+    match c.format {
+        "gff3" => {
+            let mut file = Vec::new();
+            for _ in 0..c.lines {
+                if rng.chance(1, 8) {
+                    gff::run_directive(&mut rng, &mut mon, &mut file);
+                } else {
+                    gff::run_record(&mut rng, &mut mon, &mut file);
+                }
+            }
+            gff::run_file(&mut rng, &mut mon, &file);
+        }
+        "gtf" => {
+            let mut file = Vec::new();
+            for _ in 0..c.lines {
+                gtf::run_record(&mut rng, &mut mon, &mut file);
+            }
+            gtf::run_file(&mut rng, &mut mon, &file);
+        }
+        _ => {
+            for _ in 0..c.lines {
+                match rng.below(4) {
+                    0 => bed::run_bed3(&mut rng, &mut mon),
+                    1 => bed::run_bed4(&mut rng, &mut mon),
+                    2 => bed::run_bed5(&mut rng, &mut mon),
+                    _ => bed::run_bed6(&mut rng, &mut mon),
+                }
+            }
+        }
+    }
+    let mut o = CaseOut::new();
+    o.evaluations = mon.evals.max(1);
+    o.fps = mon.fps.into_iter().collect();
+    for (k, n) in mon.counts {
+        o.count(&k, n);
+    }
+    for (sig, desc) in mon.viols {
+        o.violation(sig, desc);
+    }
+    o
+}
 
 fn main() {
-    eprintln!("c18: not implemented");
-    std::process::exit(2);
+    let ctx = Ctx::from_args();
+    let ctx = vcore::cases::replay_request(&ctx).map(|r| r.1).unwrap_or(ctx);
+    let mut rep = Report::new(
+        "case = a batch of generated lines of one format (GFF3 records + directives / GTF records / BED3..6 + other \
+         fields), every line written, judged as text, read back per line and once more as a whole file through small \
+         buffers; evaluations = lines the writer accepted (+1 per whole-file pass); distinct = distinct (format, text \
+         classes of seqid/source/type/tag/value [token, plain, reserved ;=&,%, control/TAB/LF/CR, leading >/#, \
+         non-ASCII, percent literal, mixed, empty], attribute-count class, values-per-attribute class, strand, phase \
+         present, score present) resp. (BED N, other-field count class, end/name present, strand); non-trivial = all",
+    );
+    rep.assumptions.push("expected values = the generator's description; GFF3 text judged by the harness' own strict percent-decoder and the reserved sets of the GFF3 specification (column 1: everything outside [a-zA-Z0-9.:^*$@!+_?-|]; columns 2/3: control characters and '%'; column 9: additionally ; = & ,); GTF column 9 by the harness' own quoted-string reader".into());
+    rep.assumptions.push("tolerances: a one-element array and a single value are the same attribute on the wire; typed directive values and typed BED other fields come back as their text (compared after parsing with the type's FromStr / as text); f32 scores compared by bits (any NaN == NaN); BED name \".\" and empty GFF3 Array values are not generated (format-inherent ambiguity); comments are not part of the statement".into());
+    rep.assumptions.push("GTF/BED plain columns are drawn from delimiter-free alphabets (no TAB, blank, line terminator, no leading '#'); BED values that violate the BED alphabet are generated on purpose and must be refused (counted as rejections)".into());
+    let cases = gen_cases(&ctx);
+    let f = |i: u64| -> CaseOut {
+        let mut o = run_case(&cases[i as usize]);
+        if i % 29 == 0 {
+            o.sample = Some(case_json(&cases[i as usize]));
+        }
+        o
+    };
+    run_cases(&ctx, &mut rep, cases.len() as u64, 60.0, &f, &|i| case_json(&cases[i as usize]));
+    if ctx.replay.is_none() {
+        let q = ctx.quick();
+        let floors: [(&str, u64); 12] = [
+            ("gff3.records_accepted", if q { 8_000 } else { 500_000 }),
+            ("gff3.records_read_back", if q { 6_000 } else { 400_000 }),
+            ("gff3.lazy_views_compared", if q { 6_000 } else { 400_000 }),
+            ("gff3.directives_read_back", if q { 1_000 } else { 50_000 }),
+            ("gff3.files_read", 20),
+            ("gtf.records_accepted", if q { 4_000 } else { 300_000 }),
+            ("gtf.records_read_back", if q { 2_000 } else { 150_000 }),
+            ("gtf.lazy_views_compared", if q { 2_000 } else { 150_000 }),
+            ("bed.records_accepted", if q { 3_000 } else { 200_000 }),
+            ("bed.records_read_back", if q { 3_000 } else { 200_000 }),
+            ("bed.records_accepted[BED6+6]", 20),
+            ("bed.records_accepted[BED3+0]", 20),
+        ];
+        for (k, need) in floors {
+            let got = rep.counters.get(k).copied().unwrap_or(0);
+            rep.floor(k, got, need);
+        }
+    }
+    rep.finish(&ctx);
 }
